@@ -52,13 +52,13 @@ Alphabet ==
      M(2, "queue.declare-ok"), M(7, "queue.declare-ok"), M(1, "basic.get-empty"),
      M(1, "basic.qos"), M(1, "basic.publish"), M(2, "queue.declare"), M(1, "channel.open"),
      M(1, "confirm.select"), M(2, "exchange.declare"), M(1, "connection.start"), M(0, "connection.start"),
-     M(2, "queue.declare-long"),
+     M(2, "queue.declare-long"), M(1, "queue.declare-utf8"),
      M(0, "queue.declare-ok"), M(1, "channel.flow"), M(2, "tx.select"), M(1, "access.request"), M(0, "tx.select")}
 
 \* the record the model's Dispatch sees for an alphabet symbol (as the broker would log it)
 BigSize(s) == CASE s = "4294967296" -> 2000000000 [] OTHER -> 2000000001   \* only "larger than any body"
 MethodName(n) == CASE n = "access.request" -> "access.*" [] n = "tx.select" -> "tx.*"
-                   [] n = "queue.declare-long" -> "queue.declare" [] OTHER -> n
+                   [] n \in {"queue.declare-long", "queue.declare-utf8"} -> "queue.declare" [] OTHER -> n
 Tag(a) == IF a.tag = "c1" THEN "t1" ELSE a.tag
 FrameOf(a) ==
     CASE a.k = "deliver_m" -> [type |-> "method", ch |-> a.ch, m |-> "basic.deliver", consumer_tag |-> Tag(a), mid |-> a.mid]
